@@ -8,7 +8,8 @@ Rec == ndJsonDeserialize(IOEnv.TRACE)
 VARIABLES l, run, viol, hits, nruns
 vars == <<l, run, viol, hits, nruns>>
 Rules == {"Q1", "Q2", "PANIC"}
-Add(v, x) == IF Len(v) >= 24 THEN v ELSE Append(v, x)
+\* the cap is per rule (x[2]): a flood of one rule (say Q2, which another check owns) must not crowd out the others
+Add(v, x) == IF Len(SelectSeq(v, LAMBDA e : e[2] = x[2])) >= 6 THEN v ELSE Append(v, x)
 Flush == viol = <<>> \/ PrintT(<<"RUNVIOL", ToJson([run |-> run, viol |-> viol])>>)
 Init == l = 1 /\ run = -1 /\ viol = <<>> /\ hits = [r \in Rules |-> 0] /\ nruns = 0
 Pr(o) == IF "proto" \in DOMAIN o THEN o.proto ELSE -1
